@@ -20,7 +20,7 @@ RULE = ("enum (configuration sweep): a fixed list of operation scripts (evaluate
 ASSUMPTIONS = ["well-conditioned inputs only (small alphabets); floats compared at 1e-9 relative", "the exact values are those of the "
                "Fraction run, which is itself compared with the reference model in the same execution"]
 SCRIPTS = ("eval", "basis", "insert", "insert_remove", "elevate", "elevate_reduce", "split", "split_join", "add", "sub", "mul",
-           "div", "fit_curve", "fit_points", "integrate")
+           "div", "fit_curve", "fit_points", "interp_points", "integrate")
 CUSTOM_SCRIPTS = ("eval", "insert", "elevate", "split")
 FLOAT_REPS = ("float", "npfloat", "nparray")
 
@@ -157,12 +157,35 @@ def run_script(name, U, p, P, rep):
         return [], list(t.ctrlpoints) + [e]
     if name == "fit_points":
         nodes = [ks[0] + (ks[-1] - ks[0]) * F(i, n + 1) for i in range(n + 2)]
+        nodes = list(reversed(nodes))  # the order in which the data are given must not matter (exact and float alike)
+        t = lib.Curve(conv_knots(U, rep))
+        t.fit_points([c(num(z, rep)) for z in nodes], [num(z, rep) for z in nodes])
+        return [], list(t.ctrlpoints)
+    if name == "interp_points":
+        # exactly npts nodes (interpolation), given in decreasing order
+        nodes = list(reversed(interp_nodes(U, p)))
         t = lib.Curve(conv_knots(U, rep))
         t.fit_points([c(num(z, rep)) for z in nodes], [num(z, rep) for z in nodes])
         return [], list(t.ctrlpoints)
     if name == "integrate":
         return [], [lib.Integrate.scalar(c)]
     raise KeyError(name)
+
+
+def interp_nodes(U, p):
+    """npts interpolation nodes: Greville abscissae for p >= 1 (always unisolvent), span midpoints for p = 0"""
+    n = len(U) - p - 1
+    if p == 0:
+        ks = rb.knots_of(U)
+        return [(a + b) / 2 for a, b in zip(ks[:-1], ks[1:])]
+    g = [sum(U[i + 1:i + p + 1], F(0)) / p for i in range(n)]
+    # repeated Greville abscissae (full-multiplicity knots) are nudged apart inside their spans
+    out = []
+    for i, x in enumerate(g):
+        while x in out:
+            x = x + (U[-1] - U[0]) * F(1, 64)
+        out.append(min(x, U[-1]))
+    return out
 
 
 def reference(name, U, p, P):
@@ -201,7 +224,7 @@ def reference(name, U, p, P):
         M, grams = sp.l2_projection_matrix(U, V, None, p, 1)
         Dc = sp.matvec(M, P)
         return Dc + [sp.sq_residual(P, Dc, grams)]
-    if name == "fit_points":
+    if name in ("fit_points", "interp_points"):
         return list(P)
     if name == "integrate":
         return [sum(P[i] * (U[i + p + 1] - U[i]) / (p + 1) for i in range(n))]
@@ -239,6 +262,9 @@ def run_case(case, res):
     fit_ok = sp.rank_nullspace(sp.collocation(U, fit_nodes, None, p))[0] == n
     for name in SCRIPTS:
         if name == "mul" and p > 2:
+            continue
+        if name == "interp_points" and sp.rank_nullspace(sp.collocation(U, interp_nodes(U, p), None, p))[0] != n:
+            res.outcome("interp_nodes_not_unisolvent")
             continue
         if name == "fit_points" and not fit_ok:
             res.outcome("fit_points_nodes_not_unisolvent")  # outside the property's domain (admissible node sets)
